@@ -9,6 +9,13 @@ C05.c read-data covers what restore reads: check_trees records the pack of every
   loop iterates index packs filtered only by missing packs, used packs and the read-data subset; a tree-walk error
   becomes ErrorCheckingTrees.
 C05.d index/listing comparison: check_packs_list has error arms for 'indexed but absent' and 'size differs'.
+C05.b also: the size and hash comparisons dominate every slicing/decrypt of the pack bytes (a truncated or replaced pack is
+  reported, not tripped over).
+C05.e check resolves blobs in an index fed like restore's: only unmarked packs (shared with C17.c/C10.a).
+C05.f unreadable repository files are not skipped: no iterator over repository reads drops Err items (flatten,
+  filter_map(Result::ok)), and every loop over such items propagates the Err case (R-ERRITER).
+C05.g check_pack cuts the pack into length field, header and blobs with exactly the recorded lengths (symbolic lengths,
+  shared with C08.f).
 """
 import re
 from rules.common import *
